@@ -234,7 +234,7 @@ def perturbed_defaults(scale=0.05, only=None, integer_ok=False):
         for nm, v in obj.io.input_grammar.defaults.items():
             if only is not None and nm not in only:
                 continue
-            if isinstance(v, np.ndarray) and v.dtype.kind == "f":
+            if isinstance(v, np.ndarray) and v.dtype.kind in "fc":
                 out[nm] = v * (1.0 + scale * rng.uniform(-1, 1, v.shape)) + 0.01 * scale * rng.uniform(-1, 1, v.shape)
             elif isinstance(v, float):
                 out[nm] = v * (1.0 + scale * float(rng.uniform(-1, 1)))
@@ -451,6 +451,84 @@ def build_grammar_many(cls_name):
                 g.required_names.discard(n)
         g.defaults.update({"alpha": 1.5, "beta": np.array([1.0, 2.0])})
         return dict(kind="grammar", obj=g, tol=0.0)
+
+    return build
+
+
+# --------------------------------------------------------------------------- non-default constructor arguments
+# Derived from the constructor signatures of the factory classes: every argument that changes the behaviour gets at
+# least one entry with a non-default value (dtype, sizes, coefficients, layouts, physical constants, options).
+NON_DEFAULT_ARGUMENTS = {
+    "SobieskiAerodynamics:complex": ("SobieskiAerodynamics", {"dtype": "complex128"}),
+    "SobieskiMission:complex": ("SobieskiMission", {"dtype": "complex128"}),
+    "SobieskiPropulsion:complex": ("SobieskiPropulsion", {"dtype": "complex128"}),
+    "SobieskiStructure:complex": ("SobieskiStructure", {"dtype": "complex128"}),
+    "SobieskiAerodynamicsSG:complex": ("SobieskiAerodynamicsSG", {"dtype": "complex128"}),
+    "SobieskiMissionSG:complex": ("SobieskiMissionSG", {"dtype": "complex128"}),
+    "SobieskiPropulsionSG:complex": ("SobieskiPropulsionSG", {"dtype": "complex128"}),
+    "SobieskiStructureSG:complex": ("SobieskiStructureSG", {"dtype": "complex128"}),
+    "SobieskiChain:complex": ("SobieskiChain", {"dtype": "complex128"}),
+    "Sellar1:n=3,k=2": ("Sellar1", {"n": 3, "k": 2.0}),
+    "Sellar2:n=3,k=0.5": ("Sellar2", {"n": 3, "k": 0.5}),
+    "SellarSystem:n=3": ("SellarSystem", {"n": 3}),
+    "Mission:args": ("Mission", {"r_val": 0.7, "lift_val": 0.3}),
+    "RosenMF:dimension=5": ("RosenMF", {"dimension": 5}),
+    "LinearCombination:default-coefficients": ("LinearCombination", {"input_names": ["a", "b", "c"], "output_name": "s", "input_size": 3}),
+    "LinearDiscipline:sizes": ("LinearDiscipline", {"name": "Lin2", "input_names": ["u"], "output_names": ["p", "q", "r"],
+                                                   "inputs_size": 4, "outputs_size": 1}),
+    "DensityFilter:args": ("DensityFilter", {"n_x": 5, "n_y": 2, "min_member_size": 2.5}),
+    "FiniteElementAnalysis:args": ("FiniteElementAnalysis", {"nu": 0.2, "n_x": 3, "n_y": 3, "f_node": 8, "f_direction": 0, "f_amplitude": 2,
+                                                             "fixed_nodes": [0, 1, 2], "fixed_dir": [0, 1, 1]}),
+    "MaterialModelInterpolation:args": ("MaterialModelInterpolation", {"e0": 2.0, "penalty": 2.0, "n_x": 3, "n_y": 3, "empty_elements": [0],
+                                                                       "full_elements": [8], "contrast": 1e6}),
+    "VolumeFraction:args": ("VolumeFraction", {"n_x": 3, "n_y": 3, "empty_elements": [0], "full_elements": [8]}),
+    "OscillatorDiscipline:trajectories": ("OscillatorDiscipline", {"omega": 3.0, "times": np.linspace(0.0, 0.5, 4), "return_trajectories": True}),
+    "AnalyticDiscipline:named": ("AnalyticDiscipline", {"expressions": {"r": "p*q - q**2", "s": "p/3 + 2"}, "name": "named"}),
+}
+
+
+def build_non_default(entry_name):
+    cls_name, kwargs = NON_DEFAULT_ARGUMENTS[entry_name]
+
+    def build(ctx):
+        obj = _factory().create(cls_name, **kwargs)
+        extra = {}
+        if cls_name.startswith("Oscillator"):
+            extra = dict(tol=1e-13, linearize=False, inputs=perturbed_defaults(only=("position", "velocity")))
+        elif cls_name == "SobieskiChain":
+            extra = dict(tol=1e-13, inputs=perturbed_defaults(scale=0.01, only=("x_shared", "x_1", "x_2", "x_3")))
+        elif cls_name in ("DensityFilter", "FiniteElementAnalysis", "MaterialModelInterpolation", "VolumeFraction"):
+            extra = dict(inputs=perturbed_defaults(scale=0.02))
+        elif cls_name == "AnalyticDiscipline":
+            _with_defaults(obj, {"p": np.array([1.5]), "q": np.array([-0.5])})
+        return _disc(obj, **extra)
+
+    return build
+
+
+def build_layout(which):
+    def build(ctx):
+        if which == "Splitter:alt":
+            obj = _factory().create("Splitter", input_name="v", output_names_to_input_indices={"head": 0, "tail": [3, 2], "mid": [1]})
+            return _disc(_with_defaults(obj, {"v": np.array([1.0, 2.0, 3.0, 4.0])}))
+        if which == "Concatenater:alt":
+            obj = _factory().create("Concatenater", input_variables=["p", "q", "r"], output_variable="pqr")
+            return _disc(_with_defaults(obj, {"p": np.array([1.0]), "q": np.array([2.0, 3.0]), "r": np.array([4.0, 5.0, 6.0])}))
+        if which == "MDOParallelChain:deepcopy":
+            from gemseo.core.chains.parallel_chain import MDOParallelChain
+
+            sp = spec_three()
+            obj = MDOParallelChain(gen_disciplines(sp), use_threading=True, n_processes=2, use_deep_copy=True)
+            base = system_inputs(sp)
+
+            def inputs(rng, k):
+                out = base(rng, k)
+                for d in sp["disciplines"]:
+                    out[d["y"][0]] = np.round(rng.uniform(-1, 1, d["y"][1]), 3)
+                return out
+
+            return _disc(obj, inputs=inputs)
+        raise ValueError(which)
 
     return build
 
@@ -963,6 +1041,10 @@ def entries():
     t["Sellar2"] = _simple("Sellar2", n=2)
     t["RosenMF"] = _simple("RosenMF", dimension=3)
     t["AnalyticDiscipline"] = _simple("AnalyticDiscipline", expressions={"y": "2*a+sin(b)*a", "z": "a**2-b"})
+    for n in NON_DEFAULT_ARGUMENTS:
+        t[n] = build_non_default(n)
+    for n in ("Splitter:alt", "Concatenater:alt", "MDOParallelChain:deepcopy"):
+        t[n] = build_layout(n)
     t["AnalyticDiscipline:multi"] = build_analytic_multi
     t["AutoPyDiscipline"] = build_auto_py
     t["AutoPyDiscipline:many"] = build_auto_py_many
